@@ -473,6 +473,15 @@ const USES: &[&str] = &[
     "use std::collections::{HashMap, BTreeMap}",
     "use super::statics::style_css",
     "use  a::b ",
+    // items spelled like the markers a code generator fills in (`{name}`, `{}`, `{0}`): user text is never a format
+    "use crate::helpers::{name}",
+    "use crate::helpers::{args}",
+    "use m::{generics}",
+    "use m::{preamble, name}",
+    "use m::{type_args, body}",
+    "use m::{self}",
+    "use m::{}",
+    "use m::{name, args, generics}",
 ];
 
 /// text that is safe after an `@expr`: starts with a byte that cannot continue the expression
@@ -616,10 +625,30 @@ pub fn rand_nodes(r: &mut Rng, depth: usize, budget: &mut usize) -> Vec<Node> {
         };
         // an `@expr` directly followed by another node starting with `@` is fine; followed
         // by text needs a safe first byte (handled above); an escape `@{`/`@@` is fine too.
+        let bare_if = ends_without_else(&node);
         out.push(node);
+        if bare_if && *budget > 0 && r.chance(1, 3) {
+            // text after a conditional without `else` that begins like an else branch but is none: it is text,
+            // leading white space included
+            *budget -= 1;
+            let t = *r.pick(&[" elsewhere", "\nelse-ish", " else.", "  elsewise", "\telse(x)", " else", " else\n"]);
+            if r.chance(1, 4) {
+                out.push(Node::Text(b" ".to_vec()));
+                out.push(Node::Comment(b" c ".to_vec()));
+            }
+            out.push(Node::Text(t.as_bytes().to_vec()));
+        }
     }
     // an expression at the very end of a block is followed by `}` (or EOF): fine.
     out
+}
+
+pub fn ends_without_else(n: &Node) -> bool {
+    match n {
+        Node::If { els: Else::None, .. } => true,
+        Node::If { els: Else::ElseIf(b), .. } => ends_without_else(b),
+        _ => false,
+    }
 }
 
 fn rand_else(r: &mut Rng, depth: usize, budget: &mut usize) -> Else {
